@@ -25,7 +25,7 @@ def main(argv):
         tier = rp.get('tier', tier)
         prop = rp.get('property', prop)
         print('replaying %s (seed %d, tier %s)' % (prop, seed, tier))
-    import props_lex
+    import props_lex, props_def
     table = {
         'C01': lambda: props_lex.check_stream_props('C01', tier, seed),
         'C02': lambda: props_lex.check_stream_props('C02', tier, seed),
@@ -34,6 +34,10 @@ def main(argv):
         'C05': lambda: props_lex.check_c05(tier, seed),
         'C06': lambda: props_lex.check_c06(tier, seed),
         'C07': lambda: props_lex.check_c07(tier, seed),
+        'C08': lambda: props_def.check_c08(tier, seed),
+        'C09': lambda: props_def.check_c09(tier, seed),
+        'C10': lambda: props_def.check_c10(tier, seed),
+        'C11': lambda: props_def.check_c11(tier, seed),
         'C13': lambda: props_lex.check_c13(tier, seed),
         'C20': lambda: props_lex.check_c20(tier, seed),
     }
